@@ -342,6 +342,60 @@ def clause_pointer(prog, rep):
     rep.floor("last-message-pointer", "Message records built in mdk-core", n, 2)
 
 
+def clause_pointer_after_rollback(prog, rep):
+    """a rollback restores the groups row — and with it the pointer — as it was when the snapshot was taken, while messages of the target
+    epoch that arrived later stay valid: after a successful rollback the pointer has to be derived from the stored messages again before
+    the call goes on (re-processing / return).  Decided as a must-pass rule after the success edge of the manager's rollback call."""
+    core = K.core_scope(prog)
+
+    def refreshes(t):
+        """t (or what it calls in mdk-core) lists stored messages, assigns the pointer and saves the group"""
+        reads = writes = saves = False
+        for q in prog.extent(t):
+            g = prog.fns.get(q)
+            if not g or g.crate != "mdk_core" or g.is_test_like():
+                continue
+            for c in g.live_calls():
+                if (c.trait or "").startswith("mdk_storage_traits::") and c.name in ("messages", "last_message"):
+                    reads = True
+                if (c.trait or "").startswith("mdk_storage_traits::") and c.name == "save_group":
+                    saves = True
+                if c.name == "update_last_message_if_newer":
+                    writes = True
+            for bb, st in g.stmts():
+                if ".last_message_id" in [e for e in st["d"][1:] if isinstance(e, str)]:
+                    writes = True
+        return reads and writes and saves
+    n = 0
+    for p in sorted(core):
+        f = prog.fns[p]
+        if f.is_test_like():
+            continue
+        for c in f.live_calls():
+            if not any(t.name == "rollback_to_epoch" and last_seg(t.self_adt) == "EpochSnapshotManager" for t in prog.call_targets(c)):
+                continue
+            n += 1
+            starts = set(sx for (w, sx) in A.success_edges(f, [c])) or ({c.t["to"]} if "to" in c.t else set())
+            ref_blocks = frozenset(x.bb for x in f.live_calls() if any(refreshes(t) for t in prog.call_targets(x) if t.crate == "mdk_core" and t.path != f.path and not _is_process_message(t)))
+            leaks = []
+            for b in starts:
+                r = A.reach_without_edges(f, b, set(), ref_blocks) if b not in ref_blocks else set()
+                for x in f.live_calls():
+                    if x.bb in r and any(_is_process_message(t) for t in prog.call_targets(x)):
+                        leaks.append("re-processing")
+                if any(f.term(bb)["k"] == "return" for bb in r) and not (r & A.err_exit_blocks(f)):
+                    leaks.append("return")
+            rep.check(not leaks, "last-message-pointer", "%s/recomputed-after-rollback" % prog.fns.get(f.root, f).label(),
+                      "after a successful rollback the pointer is derived from the stored messages again before the call goes on",
+                      "after a successful rollback the call goes on (%s) with the pointer the snapshot restored: a message of the target epoch that "
+                      "arrived after the snapshot is valid and newest, but the pointer still designates an older one" % ", ".join(sorted(set(leaks))), c.loc())
+    rep.floor("last-message-pointer", "rollback call sites in mdk-core", n, 1)
+
+
+def _is_process_message(t):
+    return t.name == "process_message" and last_seg(t.self_adt) == "MDK"
+
+
 def run(ctx, rep):
     prog = ctx.prog()
     sch = sqlmod.Schema()
@@ -350,10 +404,23 @@ def run(ctx, rep):
     rep.clause("C18.1 both canonical comparators are lexicographic orders (27-row tables); SQLite ORDER BY lists = those key chains, all DESC, last key unique; memory sort/max closures = the same order (reversed for listing)")
     rep.clause("C18.2 limit range check dominates data access in both backends with the same bounds; LIMIT/OFFSET bound; memory slice bounds clamped, no overflow-checked arithmetic on caller offsets; SQLite offset through a checked conversion")
     rep.clause("C18.3 last-message pointer: canonical comparator, three fields written together, offered on every Ok path that stores a message, then saved")
-    rep.not_decided = "pointer = head of non-invalidated messages after every step (the pointer is never recomputed on invalidation: visible, but which histories make it wrong is a runtime question)"
+    rep.clause("C18.3b after a successful rollback the pointer is derived from the stored messages again (must-pass after the manager's rollback call)")
+    rep.not_decided = "pointer = head of non-invalidated messages after every step of arbitrary histories"
     clause_orders(prog, rep, sch, sites)
     clause_pagination(prog, rep)
     clause_pointer(prog, rep)
+    clause_pointer_after_rollback(prog, rep)
     # a re-saved message must take its new sort keys in both backends (SQLite: the upsert assigns every non-key column)
     rep.clause("C18.4 the messages upsert assigns every non-key column (created_at / processed_at sort keys follow a re-save, as in the memory backend)")
     sqlrules.clause_upserts(prog, rep, sch, sites, only_tables=("messages",))
+    # the pointer's three fields survive a rollback in their own columns: the groups row travels through the snapshot as a tuple whose
+    # positions must mean the same column to the writer and to the restore (shared with C09)
+    rep.clause("C18.5 the groups row (incl. the three pointer fields) is restored from a snapshot into the columns it was read from")
+    import os
+    import sys
+    sys.path.insert(0, os.path.dirname(os.path.abspath(__file__)))
+    import c09
+    Ms = c09.method(prog, "MdkSqliteStorage", "create_group_snapshot")
+    Mr = c09.method(prog, "MdkSqliteStorage", "rollback_group_to_snapshot")
+    if Ms and Mr:
+        c09.clause_tuple_positions(prog, rep, c09.ext_sites(prog, sites, Ms), c09.ext_sites(prog, sites, Mr), rule="last-message-pointer", only={"groups"}, floor=1)
